@@ -55,7 +55,11 @@
 (*                     with the same repr            (intended: only if == *)
 (*   "id_unvalidated"  0.23.0: subt/eqt hit on the address pair alone      *)
 (*                     (intended: the entry must belong to these objects)  *)
-(* faithful = both; intended = {}.  Spec mutants (plausible wrong designs  *)
+(*   "registry_wiped"  0.23.0: clear_caches() is followed by                 *)
+(*                     _BEARTYPED_MODULE_TO_TYPE_NAME.clear(): every OTHER   *)
+(*                     decorated class is forgotten, so its next             *)
+(*                     redefinition does not clear the caches                *)
+(* faithful = all three; intended = {}.  Spec mutants (wrong designs        *)
 (* that TLC must reject on top of the intended discipline):                *)
 (*   "tester_noconf"        checker cache keyed without the configuration  *)
 (*   "cache_uncacheable"    checker cached although is_check_expr_cacheable*)
@@ -130,9 +134,10 @@ VARIABLES gen,      \* class name -> current generation (-1: name not defined ye
           tester, raiser, dedup, reprc, sane, expr,      \* memo tables of the checker pipeline
           wrap, wobj, held, subt, eqt,                   \* TypeHint wrappers and the id-keyed tables
           funcs,    \* decorated callables
+          decreg,   \* names of decorated classes that decortype.py remembers (_BEARTYPED_MODULE_TO_TYPE_NAME)
           nexta, nextu, nops,
           last      \* the last operation: answer, Fresh(q), path taken
-vars == <<gen, tester, raiser, dedup, reprc, sane, expr, wrap, wobj, held, subt, eqt, funcs, nexta, nextu, nops, last>>
+vars == <<gen, tester, raiser, dedup, reprc, sane, expr, wrap, wobj, held, subt, eqt, funcs, decreg, nexta, nextu, nops, last>>
 
 (* ------------------------------------------------------------ hint values *)
 HintOf(dn) == LET d == HD[dn] IN
@@ -249,7 +254,7 @@ Bearable(dn, conf) ==
   /\ LET h == HintOf(dn)  r == TLCEval(DoorChecker(tester, h, conf)) IN
      /\ tester' = r.tab /\ dedup' = r.dd /\ reprc' = r.rc /\ sane' = r.sn /\ expr' = r.ex
      /\ last' = Rec("bearable", dn, conf, Verdicts(r.cv, r.cc), FreshCheck(h, conf), TRUE, r.hit, FALSE, r.swap)
-  /\ UNCHANGED <<gen, raiser, funcs>> /\ WrapUnch
+  /\ UNCHANGED <<gen, raiser, funcs, decreg>> /\ WrapUnch
 
 \* die_if_unbearable(probe, hint, conf=conf): acc = the probes that do NOT raise
 Die(dn, conf) ==
@@ -257,7 +262,7 @@ Die(dn, conf) ==
   /\ LET h == HintOf(dn)  r == TLCEval(DoorChecker(raiser, h, conf)) IN
      /\ raiser' = r.tab /\ dedup' = r.dd /\ reprc' = r.rc /\ sane' = r.sn /\ expr' = r.ex
      /\ last' = Rec("die", dn, conf, Verdicts(r.cv, r.cc), FreshCheck(h, conf), TRUE, r.hit, FALSE, r.swap)
-  /\ UNCHANGED <<gen, tester, funcs>> /\ WrapUnch
+  /\ UNCHANGED <<gen, tester, funcs, decreg>> /\ WrapUnch
 
 \* @beartype(conf=conf) def f(x: hint): the hint is coerced and compiled at decoration time
 Decorate(dn, conf) ==
@@ -272,7 +277,7 @@ Decorate(dn, conf) ==
                                      res |-> IF h.sh = "ref" THEN -1 ELSE -2])
           /\ dedup' = co.dd /\ reprc' = co.rc /\ sane' = ce.sn /\ expr' = ce.ex
           /\ last' = Rec("decorate", dn, conf, NoAns, NoAns, TRUE, ce.hit, FALSE, co.swap)
-  /\ UNCHANGED <<gen, tester, raiser>> /\ WrapUnch
+  /\ UNCHANGED <<gen, tester, raiser, decreg>> /\ WrapUnch
 
 \* f(probe) for every probe object.  A forward reference is resolved by the callable's proxy at the first call that
 \* needs it and then remembered (_ref_proxy_to_resolved_type).  Whether a callable decorated BEFORE a redefinition
@@ -289,7 +294,7 @@ Call(i) ==
           /\ last' = Rec("call", f.dn, f.conf,
                          IF r < 0 THEN Ans("fwdref", {}) ELSE Ans("none", Accepted([sh |-> "cls", n |-> n, g |-> r], f.conf)),
                          FreshCheck(f.h, f.conf), r = gen[n], f.res >= 0, FALSE, FALSE)
-  /\ UNCHANGED <<gen, tester, raiser, dedup, reprc, sane, expr>> /\ WrapUnch
+  /\ UNCHANGED <<gen, tester, raiser, dedup, reprc, sane, expr, decreg>> /\ WrapUnch
 
 (* ------------------------------------------------ wrappers and id-keyed tables *)
 KeyAddrs == {e.a1 : e \in subt \cup eqt} \cup {e.a2 : e \in subt \cup eqt}
@@ -360,7 +365,7 @@ SubEval(m, t, ua, ub, c3, c4) ==
 Live(wr, hd, wo) == LET roots == {e.u : e \in wr} \cup hd IN roots \cup {w.c : w \in {x \in wo : x.u \in roots}}
 Collect(wr, hd, wo) == {w \in wo : w.u \in Live(wr, hd, wo)}
 Commit(m) == /\ wrap' = m.wr /\ wobj' = Collect(m.wr, held', m.wo) /\ nexta' = m.na /\ nextu' = m.nu
-PipeUnch == UNCHANGED <<gen, tester, raiser, dedup, reprc, sane, expr, funcs>>
+PipeUnch == UNCHANGED <<gen, tester, raiser, dedup, reprc, sane, expr, funcs, decreg>>
 NonHint(dn) == HD[dn].sh \in {"ref", "bad"}
 
 \* is_subhint(a, b) == TypeHint(a).is_subhint(TypeHint(b)); temporaries die at the end of the call
@@ -425,29 +430,34 @@ LeHeld(db) ==
      /\ last' = Rec("leheld", "-", db, Bool(r.v), FreshSub(WOf(M0, ua).h, b), TRUE, r.hit, r.stale, FALSE)
 
 (* ------------------------------------------------ the heap changes under the tables *)
-ClearEffect ==
+\* clear_caches() as run by _uncache_beartype_if_type_redefined(who)
+ClearEffect(who) ==
   /\ tester' = {} /\ raiser' = {} /\ expr' = {} /\ sane' = {} /\ wrap' = {}
   /\ dedup' = IF "clear_forgets_dedup" \in Legacy THEN dedup ELSE {}
   /\ funcs' = [i \in 1..Len(funcs) |-> IF funcs[i].res >= 0 THEN [funcs[i] EXCEPT !.res = -1] ELSE funcs[i]]
   /\ wobj' = Collect({}, held, wobj)
+  /\ decreg' = IF "registry_wiped" \in Legacy THEN {who} ELSE decreg \cup {who}
   /\ UNCHANGED <<reprc, subt, eqt, held, nexta, nextu>>        \* callable_cached closures and id-keyed tables survive
 
-\* class n: ... again (or for the first time: U).  A decorated class runs clear_caches() when its name was seen before.
+\* class n: ... again (or for the first time: U).  A decorated class runs clear_caches() when decortype.py remembers
+\* having decorated a class of that name.
 Redefine(n) ==
   /\ Step /\ gen[n] < MaxGen[n]
   /\ gen' = [gen EXCEPT ![n] = @ + 1]
-  /\ IF n \in Decorated /\ gen[n] >= 0 THEN ClearEffect
-     ELSE UNCHANGED <<tester, raiser, dedup, reprc, sane, expr, wrap, wobj, held, subt, eqt, funcs, nexta, nextu>>
+  /\ IF n \in Decorated /\ n \in decreg THEN ClearEffect(n)
+     ELSE /\ UNCHANGED <<tester, raiser, dedup, reprc, sane, expr, wrap, wobj, held, subt, eqt, funcs, nexta, nextu>>
+          /\ decreg' = IF n \in Decorated THEN decreg \cup {n} ELSE decreg
   /\ last' = Rec("redefine", n, "-", NoAns, NoAns, FALSE, FALSE, FALSE, FALSE)
 
-\* clear_caches() by any other route (decorating some unrelated redefined class)
+\* clear_caches() by another route: some unrelated decorated class K is redefined (the driver executes the definition
+\* twice, so that K is certainly remembered the second time)
 ClearCaches ==
-  /\ ClearS /\ Step /\ ClearEffect /\ UNCHANGED gen
+  /\ ClearS /\ Step /\ ClearEffect("K") /\ UNCHANGED gen
   /\ last' = Rec("clear", "-", "-", NoAns, NoAns, FALSE, FALSE, FALSE, FALSE)
 
 Init ==
   /\ gen = InitGen /\ tester = {} /\ raiser = {} /\ dedup = {} /\ reprc = {} /\ sane = {} /\ expr = {}
-  /\ wrap = {} /\ wobj = {} /\ held = {} /\ subt = {} /\ eqt = {} /\ funcs = <<>>
+  /\ wrap = {} /\ wobj = {} /\ held = {} /\ subt = {} /\ eqt = {} /\ funcs = <<>> /\ decreg = {"D", "K"}
   /\ nexta = 1 /\ nextu = 1 /\ nops = 0
   /\ last = Rec("init", "-", "-", NoAns, NoAns, FALSE, FALSE, FALSE, FALSE)
 
